@@ -262,6 +262,9 @@ func (*c03Prop) Gen(r *Rand, pl *Plan) Case {
 		c.G.translit('b', to)
 		c.Input = strings.Replace(c.Input, "b", to, -1)
 	}
+	if r.Chance(1, 8) {
+		c.Input = stretchWs(r, c.Input)
+	}
 	c.Prefix = genPrefix(r)
 	n := len(c.G.Nodes)
 	reps := r.Range(3, 4)
@@ -417,7 +420,7 @@ func (f *hugeFile) Pos(i int) parsley.Pos         { return parsley.Pos(f.off + i
 func (f *hugeFile) Len() int                      { return f.n }
 func (f *hugeFile) SetOffset(o int)               { f.off = o }
 
-var hugeSizes = []int{1<<16 - 3, 1 << 20, 1<<20 + 5, 3 << 20, 1 << 24, 1<<31 - 10, 1<<31 + 7, 1<<32 + 1, 1 << 40}
+var hugeSizes = []int{200, 250, 254, 255, 256, 300, 1000, 4095, 4096, 5000, 40000, 1<<16 - 3, 1 << 20, 1<<20 + 5, 3 << 20, 1 << 24, 1<<31 - 10, 1<<31 + 7, 1<<32 + 1, 1 << 40}
 
 func genPrefix(r *Rand) int {
 	switch {
